@@ -346,12 +346,14 @@ func (name *Name) BlockSize() int {
 
 // WriteTo serializes the IDBlock to w.
 func (name *Name) WriteTo(w io.Writer) (int64, error) {
+	// The block size is written as a single byte, so the largest block is
+	// 255 bytes and the longest label 252.
 	blockSize := name.BlockSize()
-	if blockSize > 256 {
+	if blockSize > 255 {
 		return 0, ErrNameTooLong
 	}
 	idLen := len(name.Label)
-	if idLen > 256-3 {
+	if idLen > 255-3 {
 		return 0, ErrNameTooLong
 	}
 	written := int64(0)
